@@ -548,6 +548,10 @@ def run_group(ctx, g, obj):
     base = ['cbmc', b, '--json-ui', '--trace', '--object-bits', '12'] + g['flags']
     if g['direct']:
         base += ['--drop-unused-functions']
+    if not g['unwind'] and not g['loops'] and not g['loopinv']:
+        # functions under contract here are meant to be loop-free after callee replacement; a stray reachable loop
+        # must not hang symex: unwind with assertions (complete when they pass; a failing one means undecided)
+        base += ['--unwind', '24', '--unwinding-assertions']
     if g['unwind']:
         uw = g['unwind']
         if isinstance(uw, int):
@@ -645,6 +649,10 @@ def run_group(ctx, g, obj):
         res['reason'] = 'vacuity: only %d obligations (< %d expected)' % (len(user), g['min_obl'])
         return res
     failed = [r for r in res['results'] if r['status'] == 'FAILURE']
+    uw_failed = [r for r in failed if '.unwind.' in (r['property'] or '') and not g['unwind']]
+    if uw_failed:
+        res['reason'] = 'a loop was reached that has no loop contract and is not replaced by a contract: %s' % uw_failed[0]['property']
+        return res
     if failed:
         res['status'] = 'fail'
         res['failed'] = failed
